@@ -415,7 +415,7 @@ def _an_order(c, W, name, assets):
     return Order(c.time(name + '.created'), a, q)
 
 
-@harness('SimulatedBroker._execute_order', props=['C05', 'C04', 'C01', 'C02', 'C07'], layer='L2', functions=BR_FUNCS)
+@harness('SimulatedBroker._execute_order', props=['C05', 'C04', 'C01', 'C02', 'C07'], also=['C09', 'C08'], layer='L2', functions=BR_FUNCS)
 def br_execute(c):
     """one fill: quote read once at (dt, asset); ask for a buy, bid for a sell; stamped with the broker clock; the
        whole order quantity; commission = fee model on round(price x quantity); one transact_asset on that portfolio.
@@ -445,12 +445,12 @@ def br_execute(c):
             c.assume(now >= W.pclk_(pid, x))
     r0, _ = outcome(lambda: b._execute_order(dt, pid, earlier))
     if r0 != 'ok':
-        c.ob('fills-under-the-precondition', False, props=['C04'])
+        c.ob('fills-under-the-precondition', False, props=['C04', 'C09', 'C08'])
         return
     pre = W.snapshot()
     nf, nq, nfee = len(W.fills), len(W.queries), len(W.fee_calls)
     r, _ = outcome(lambda: b._execute_order(dt, pid, order))
-    c.ob('fills-under-the-precondition', r == 'ok', props=['C04'])
+    c.ob('fills-under-the-precondition', r == 'ok', props=['C04', 'C09', 'C08'])
     if r != 'ok':
         return
     oa, oq = order.asset, order.quantity
@@ -465,7 +465,7 @@ def br_execute(c):
         return
     f = fl[0]
     c.ob('fill-on-the-ordering-portfolio', EQ(f['p'] if isinstance(f['p'], str) else SymKey(f['p']), pid), props=['C04', 'C01'])
-    c.ob('fill-asset-and-full-quantity', AND(EQ(f['asset'] if isinstance(f['asset'], str) else SymKey(f['asset']), oa), EQ(f['quantity'], oq)), props=['C04'])
+    c.ob('fill-asset-and-full-quantity', AND(EQ(f['asset'] if isinstance(f['asset'], str) else SymKey(f['asset']), oa), EQ(f['quantity'], oq)), props=['C04', 'C09', 'C08'])       # (C09/C08: an order that reaches the broker is filled in full)
     c.ob('fill-stamped-with-broker-clock', EQ(f['dt'], now), props=['C05'])
     c.ob('fill-priced-at-ask-for-buy-bid-for-sell', EQ(f['price'], price), props=['C05'])
     cons = ROUND0(price * oq)
